@@ -11,7 +11,7 @@ import glob, json, os, re, shutil, sys
 FIRST = {}
 SRC = "/tmp/seed-out"
 DST = "/verif/seeded"
-ROUND = {"1": "r1", "2": "r2", "3": "r2b", "4": "r3", "5": "r4", "6": "r5", "7": "r6", "8": "r7", "9": "r8", "10": "r9"}
+ROUND = {"1": "r1", "2": "r2", "3": "r2b", "4": "r3", "5": "r4", "6": "r5", "7": "r6", "8": "r7", "9": "r8", "10": "r9", "11": "r10"}
 
 
 def main():
